@@ -5,6 +5,7 @@
 package verifhook
 
 import (
+	"math/rand/v2"
 	"runtime"
 	"sync/atomic"
 )
@@ -31,12 +32,20 @@ var (
 	counts [NumSites]atomic.Int64
 	total  atomic.Int64
 	budget atomic.Int64 // 0 = unlimited
-	yieldN atomic.Uint64
-	yieldP atomic.Uint32 // yield when hash%1024 < yieldP
+
+	// concurrent and yieldP are plain variables on purpose. Atomic operations are synchronisation: a hook
+	// that touched a shared atomic on every call would order the goroutines of the code under test and
+	// hide its data races from the race detector. They are written only while no library code runs
+	// concurrently (before the goroutines of a phase are started, after they were joined).
+	concurrent bool
+	yieldP     uint32 // yield when a per-thread random number %1024 < yieldP
 )
 
 // Step counts one logical unit of work at site.
 func Step(site int) {
+	if concurrent {
+		return
+	}
 	counts[site].Add(1)
 	n := total.Add(1)
 	if b := budget.Load(); b > 0 && n > b {
@@ -47,19 +56,17 @@ func Step(site int) {
 
 // Yield is a schedule-perturbation point.
 func Yield(site int) {
-	counts[site].Add(1)
-	p := yieldP.Load()
-	if p == 0 {
-		return
+	if !concurrent {
+		counts[site].Add(1)
 	}
-	x := yieldN.Add(0x9e3779b97f4a7c15)
-	x ^= x >> 31
-	x *= 0xbf58476d1ce4e5b9
-	x ^= x >> 29
-	if uint32(x%1024) < p {
+	if p := yieldP; p != 0 && rand.Uint32()%1024 < p {
 		runtime.Gosched()
 	}
 }
+
+// SetConcurrent switches the hooks to a mode without any shared-memory synchronisation (no counters, no
+// budget). Call it only while no library code is running in another goroutine.
+func SetConcurrent(on bool) { concurrent = on }
 
 // SetBudget resets the total step counter and sets the budget (0 = unlimited).
 func SetBudget(n int64) { total.Store(0); budget.Store(n) }
@@ -68,7 +75,8 @@ func SetBudget(n int64) { total.Store(0); budget.Store(n) }
 func Total() int64 { return total.Load() }
 
 // SetYield sets the probability (in 1/1024) that Yield calls runtime.Gosched.
-func SetYield(p uint32) { yieldP.Store(p) }
+// Call it only while no library code is running in another goroutine.
+func SetYield(p uint32) { yieldP = p }
 
 // Counts returns the per-site hit counts since process start.
 func Counts() [NumSites]int64 {
